@@ -55,6 +55,8 @@ class Contract:
         mutants=(),
         gen=None,
         pure_check=False,
+        ensures_rt=(),
+        ghost=None,
     ):
         self.target = target
         self.params = dict(params)  # name -> type (order = positional order)
@@ -80,6 +82,12 @@ class Contract:
         self.defaults = dict(defaults or {})
         self.mutants = list(mutants)
         self.gen = gen
+        # postconditions evaluated only by the run-time monitor (outside the
+        # prover's expression subset; never counted as proved)
+        self.ensures_rt = list(ensures_rt)
+        # ghost parameters: name -> (type, native expression); symbolically a
+        # fresh value constrained by `requires`
+        self.ghost = dict(ghost or {})
         self.short = target.split(":")[1]
         self.proved_lemmas = []
 
